@@ -52,10 +52,10 @@ PROP = {'assumptions': ['Messages are C01-well-formed, within the nesting limit,
 TEXT = {'design_ref': 'DESIGN.md section 4, C03',
  'note': 'Not proved, only validated by correspondence/oracle: history dependence of the zlib streams, the templated payload codec '
          '(TemplatedFlatten/TemplatedUnflatten), WebSocket receive loop and handshake, C gateway call loops.  Hypotheses explicit in the statements (frameOKZ, '
-         'CodecOK, clean lines, drained link, equal cache limits).  Open findings kept as corpus/C03/gw-known-*.ops and listed in known_findings.json: '
-         'C03-ws-10mb (a Message above 10 MB cannot cross a WebSocket link), C03-tmpl-zlib-level-switch (templating receiver fails after the sender changes '
-         'its zlib level).  Fixed and guarded by corpus/C03/gw-regress-*.ops and mutants/C03/r*.diff: F24, WebSocket client mask byte order, WebSocket '
-         'handshake under a would-block, F7, C03-empty-chunk.',
+         'CodecOK, clean lines, drained link, equal cache limits).  Open finding kept as corpus/C03/gw-known-*.ops and listed in known_findings.json: '
+         'C03-ws-10mb (a Message above 10 MB cannot cross a WebSocket link).  Fixed and guarded by corpus/C03/gw-regress-*.ops and mutants/C03/r*.diff: F24, '
+         'WebSocket client mask byte order, WebSocket handshake under a would-block, F7, C03-empty-chunk, C03-tmpl-zlib-level-switch (templating receiver '
+         'failed after the sender changed its zlib level).',
  'technique': 'Lean 4 theorems (receiver state is a function of the consumed byte prefix for every maxBytes/grant schedule; any input chunking gives the same '
               'units; any short-write schedule emits the same bytes; any interleaving; frame round trips plain and zlib-flagged over an opaque codec; '
               'text-line, SLIP and WebSocket frame/mask/length round trips) over a hand-written model of the gateway call loops + differential correspondence '
